@@ -171,6 +171,15 @@ def gen_literal(rng, tier, ctx):
             st += [c, d]
         cases.append(st)
         cases.append([c, c, 48, c, c, 117, 48, 48, 52, 49])
+    # ordinary text: words a writer could mistake for something else, lines, and every control character at either end
+    words = ["true", "false", "null", "0", "1", "-1", "1.0", "0x10", "1L", "this", "new", "int", "void", "class", "String", "a", " ", "  ",
+             "hello world", "Hello, World!", "key=value", "a.b.C", "Lp/A;", "%s %d", "/* c */", "// c", "<init>", "x y\tz"]
+    for w in words:
+        for text in (w, w + "\n", "\n" + w, w + "\r\n", w + "\n\n", w + "\t", w + "\r", w + "\x00", w + " ", w + "\n" + w, w + "\n" + w + "\n"):
+            cases.append([ord(ch) for ch in text])
+    for c in list(range(32)) + [127, 0x85, 0x2028, 0x2029]:
+        cases.append([104, 105, c])
+        cases.append([c, 104, 105])
     n_supp = 4000 if tier == "thorough" else 400
     for _ in range(n_supp // 8):
         cases.append([rng.randrange(0x10000, 0x110000) for _ in range(8)])
